@@ -102,8 +102,7 @@ type Client struct {
 }
 
 func (c *Client) NextURL() *URL {
-	atomic.AddUint64(&c.reqCounter, 1)
-	next := c.reqCounter % uint64(len(c.urls))
+	next := atomic.AddUint64(&c.reqCounter, 1) % uint64(len(c.urls))
 	return c.urls[next]
 }
 
